@@ -145,7 +145,7 @@ class C19:
     exhaustive = None
 
     def budget(self, tier):
-        return 160 if tier == 'quick' else 6000
+        return 1800 if tier == 'quick' else 50000
 
     # ---- (b) macro-ised programs
     def macroise(self, ch, src):
@@ -158,9 +158,12 @@ class C19:
         i = 0
         nm = 0
         feat = set()
+        dense = {}
         while i < len(toks):
             t = toks[i]
-            r = ch.int(0, 99)
+            rr = ch.int(0, 999)
+            r = rr // 10
+            dense[len(out)] = (rr % 10) < 8
             if r < 6 and i + 1 < len(toks):
                 # replace a run of 1-4 tokens by an object-like macro (never across a string/char prefix boundary)
                 n = ch.int(1, 4)
@@ -195,9 +198,9 @@ class C19:
         # spacing: dense wherever the *source* stays unambiguous
         text = []
         prev_src_last = None   # spelling (as written in the source) of the previous item
-        for kind, spell, first, last in out:
+        for oi, (kind, spell, first, last) in enumerate(out):
             if prev_src_last is not None:
-                if ch.int(0, 9) < 8 and not would_fuse_src(prev_src_last, spell):
+                if dense.get(oi, True) and not would_fuse_src(prev_src_last, spell):
                     pass
                 else:
                     text.append(' ')
@@ -217,11 +220,9 @@ class C19:
             cs = [c03.CHECK.gen_cf(ch, 2)]
             base = diffprog.unit_source(cs, None, c03.PRE)
             # expand the helper macros of that prelude by hand: keep them as real macros (they are part of the test)
-        if '#define' in base:
-            head = '\n'.join(l for l in base.split('\n') if l.startswith('#')) + '\n'
-            rest = '\n'.join(l for l in base.split('\n') if not l.startswith('#'))
-        else:
-            head, rest = '', base
+        k = base.index('void c0_run') if 'void c0_run' in base else 0
+        k = base.rfind('\n', 0, base.rfind('enum c0_E', 0, k) if 'enum c0_E' in base[:k] else k) + 1
+        head, rest = base[:k], base[k:]
         src, feat = self.macroise(ch, rest)
         src = head + src
         d = ctx.fresh_dir()
